@@ -251,6 +251,46 @@ fn settle_forward<S: Storage + ?Sized>(
     }
 }
 
+/// Position of the last entry (in key order) of the subtree rooted at `page_no`, or `None`
+/// when every leaf of the subtree is empty. Leaves emptied by deletes are skipped by
+/// falling back to the preceding child.
+fn last_entry_in_subtree<S: Storage + ?Sized>(
+    storage: &S,
+    page_no: u32,
+) -> Result<Option<(u32, usize)>> {
+    let page_data = storage.page(page_no)?;
+    let header = PageHeader::from_bytes(page_data)?;
+
+    match header.page_type() {
+        PageType::BTreeLeaf => {
+            let leaf = LeafNode::from_page(page_data)?;
+            let count = leaf.cell_count() as usize;
+            if count == 0 {
+                return Ok(None);
+            }
+            Ok(Some((page_no, count - 1)))
+        }
+        PageType::BTreeInterior => {
+            let interior = InteriorNode::from_page(page_data)?;
+            if let Some(pos) = last_entry_in_subtree(storage, interior.right_child())? {
+                return Ok(Some(pos));
+            }
+            for idx in (0..interior.cell_count() as usize).rev() {
+                let child = interior.slot_at(idx)?.child_page();
+                if let Some(pos) = last_entry_in_subtree(storage, child)? {
+                    return Ok(Some(pos));
+                }
+            }
+            Ok(None)
+        }
+        _ => bail!(
+            "unexpected page type {:?} during find_rightmost at page {}",
+            header.page_type(),
+            page_no
+        ),
+    }
+}
+
 impl<'a> BTreeReader<'a> {
     pub fn new(storage: &'a MmapStorage, root_page: u32) -> Result<Self> {
         ensure!(
@@ -300,44 +340,18 @@ impl<'a> BTreeReader<'a> {
     }
 
     pub fn cursor_last(&self) -> Result<Cursor<'a, MmapStorage>> {
-        let mut current_page = self.root_page;
-
-        loop {
-            let page_data = self.storage.page(current_page)?;
-            let header = PageHeader::from_bytes(page_data)?;
-
-            match header.page_type() {
-                PageType::BTreeLeaf => {
-                    let leaf = LeafNode::from_page(page_data)?;
-                    let cell_count = leaf.cell_count() as usize;
-                    if cell_count == 0 {
-                        return Ok(Cursor {
-                            storage: self.storage,
-                            root_page: self.root_page,
-                            current_page,
-                            current_index: 0,
-                            exhausted: true,
-                        });
-                    }
-                    return Ok(Cursor {
-                        storage: self.storage,
-                        root_page: self.root_page,
-                        current_page,
-                        current_index: cell_count - 1,
-                        exhausted: false,
-                    });
-                }
-                PageType::BTreeInterior => {
-                    let interior = InteriorNode::from_page(page_data)?;
-                    current_page = interior.right_child();
-                }
-                _ => bail!(
-                    "unexpected page type {:?} during cursor_last at page {}",
-                    header.page_type(),
-                    current_page
-                ),
-            }
-        }
+        let (current_page, current_index, exhausted) =
+            match last_entry_in_subtree(self.storage, self.root_page)? {
+                Some((page_no, index)) => (page_no, index, false),
+                None => (self.root_page, 0, true),
+            };
+        Ok(Cursor {
+            storage: self.storage,
+            root_page: self.root_page,
+            current_page,
+            current_index,
+            exhausted,
+        })
     }
 
     pub fn get(&self, key: &[u8]) -> Result<Option<&'a [u8]>> {
@@ -1365,44 +1379,18 @@ impl<'a, S: Storage> BTree<'a, S> {
     }
 
     pub fn cursor_last(&self) -> Result<Cursor<'_, S>> {
-        let mut current_page = self.root_page;
-
-        loop {
-            let page_data = self.storage.page(current_page)?;
-            let header = PageHeader::from_bytes(page_data)?;
-
-            match header.page_type() {
-                PageType::BTreeLeaf => {
-                    let leaf = LeafNode::from_page(page_data)?;
-                    let cell_count = leaf.cell_count() as usize;
-                    if cell_count == 0 {
-                        return Ok(Cursor {
-                            storage: self.storage,
-                            root_page: self.root_page,
-                            current_page,
-                            current_index: 0,
-                            exhausted: true,
-                        });
-                    }
-                    return Ok(Cursor {
-                        storage: self.storage,
-                        root_page: self.root_page,
-                        current_page,
-                        current_index: cell_count - 1,
-                        exhausted: false,
-                    });
-                }
-                PageType::BTreeInterior => {
-                    let interior = InteriorNode::from_page(page_data)?;
-                    current_page = interior.right_child();
-                }
-                _ => bail!(
-                    "unexpected page type {:?} during cursor_last at page {}",
-                    header.page_type(),
-                    current_page
-                ),
-            }
-        }
+        let (current_page, current_index, exhausted) =
+            match last_entry_in_subtree(self.storage, self.root_page)? {
+                Some((page_no, index)) => (page_no, index, false),
+                None => (self.root_page, 0, true),
+            };
+        Ok(Cursor {
+            storage: self.storage,
+            root_page: self.root_page,
+            current_page,
+            current_index,
+            exhausted,
+        })
     }
 }
 
@@ -1536,55 +1524,20 @@ impl<'a, S: Storage + ?Sized> Cursor<'a, S> {
         }
 
         while let Some((parent_page, child_idx)) = path.pop() {
-            if child_idx > 0 {
-                let page_data = self.storage.page(parent_page)?;
-                let interior = InteriorNode::from_page(page_data)?;
+            let page_data = self.storage.page(parent_page)?;
+            let interior = InteriorNode::from_page(page_data)?;
 
-                let prev_child = if child_idx == 1 {
-                    interior.slot_at(0)?.child_page()
-                } else if child_idx > 1 {
-                    let target_idx = child_idx - 1;
-                    if target_idx < interior.cell_count() as usize {
-                        interior.slot_at(target_idx)?.child_page()
-                    } else {
-                        interior.right_child()
-                    }
-                } else {
-                    continue;
-                };
-
-                return self.find_rightmost_in_subtree(prev_child);
+            // the preceding subtree may consist of leaves emptied by deletes: keep
+            // looking further left, then further up
+            for idx in (0..child_idx).rev() {
+                let prev_child = interior.slot_at(idx)?.child_page();
+                if let Some(pos) = last_entry_in_subtree(self.storage, prev_child)? {
+                    return Ok(Some(pos));
+                }
             }
         }
 
         Ok(None)
-    }
-
-    fn find_rightmost_in_subtree(&self, mut page_no: u32) -> Result<Option<(u32, usize)>> {
-        loop {
-            let page_data = self.storage.page(page_no)?;
-            let header = PageHeader::from_bytes(page_data)?;
-
-            match header.page_type() {
-                PageType::BTreeLeaf => {
-                    let leaf = LeafNode::from_page(page_data)?;
-                    let count = leaf.cell_count() as usize;
-                    if count == 0 {
-                        return Ok(None);
-                    }
-                    return Ok(Some((page_no, count - 1)));
-                }
-                PageType::BTreeInterior => {
-                    let interior = InteriorNode::from_page(page_data)?;
-                    page_no = interior.right_child();
-                }
-                _ => bail!(
-                    "unexpected page type {:?} during find_rightmost at page {}",
-                    header.page_type(),
-                    page_no
-                ),
-            }
-        }
     }
 }
 
